@@ -88,12 +88,17 @@ CBMM_MIN_PERTURBATION = 1e-4  # below: Bingham concentrations > 1e8, normaliser/
 # The Em model (lean/PbBss/Model/Em.lean) the C03 theorems are about is tied to the code on C03's OWN domain:
 # separable scenes, blurred true start, iterate i of the real trainer -> driver_em -> one model EM step, compared with
 # the code's iterate i + 1 by C02's step-wise machinery, plus the arg-max class of the model E-step against the code's.
-CORR_FAMILIES = ['cwmm', 'cacgmm', 'gmm-spherical', 'gmm-diagonal']
+CORR_FAMILIES = ['cwmm', 'cacgmm', 'gmm-spherical', 'gmm-diagonal', 'gmm-full', 'gcacgmm-spherical', 'gcacgmm-full',
+                 'gcacgmm-diagonal']
 TIE_MARGIN = 1e-9
 
 
 def _corr_level(rng, family):
     """perturbation level of a correspondence scene (never exactly 0: the Gaussian families have no density there)"""
+    if family in ('gmm-full', 'gcacgmm-full'):
+        # full covariances of near-noise-free classes have condition numbers ~ 1/level^2; the driver's Cholesky and LAPACK's
+        # then agree to ~1e-16/level^2 only: levels are kept where that stays below the 1e-9 comparison tolerance
+        return float(10 ** rng.uniform(-3, -2))
     if family.startswith('gmm-'):
         return float(10 ** rng.uniform(-6, -2))
     # cWMM / cACGMM: below ~3e-3 the Watson concentration sits at max_concentration and the smallest cACG eigenvalue
@@ -111,9 +116,10 @@ def _corr_level(rng, family):
 def _corr_scene(rng, family):
     """one separable scene in the layout c02._line / c02._compare expect (leading axis F, flat observations)"""
     gauss = family.startswith('gmm-')
+    integ = family.startswith('gcacgmm')
     K = int(rng.integers(2, 5))
-    D = int(rng.integers(K, 9))
-    F = (1 if rng.random() < 0.7 else 2) if gauss else 1
+    D = int(rng.integers(K, 9 if not integ else 6))
+    F = (1 if rng.random() < 0.7 else 2) if (gauss or integ) else 1
     sizes = [int(rng.integers(D + 2, 2 * D + 7)) for _ in range(K)]
     N = int(sum(sizes))
     labels = np.stack([rng.permutation(np.concatenate([[k] * n for k, n in enumerate(sizes)])) for _ in range(F)])
@@ -130,6 +136,11 @@ def _corr_scene(rng, family):
         gains = np.exp(rng.uniform(-span, span, size=(F, N))) * np.exp(2j * np.pi * rng.random((F, N)))
         y = np.take_along_axis(proto, labels[..., None], axis=1) + level * np.sqrt(2) * eu.cnormal(rng, F, N, D)
         y = y * gains[..., None]
+    e = None
+    if integ:
+        E = int(rng.integers(K, 6))
+        proto_e = eu.prototypes(rng, K, E, maxcos, False)[0]
+        e = proto_e[labels] + max(level, 1e-4) * rng.normal(size=(F, N, E))
     truth = np.moveaxis(np.eye(K)[labels], -1, -2)                                           # (F, K, N)
     bkind = str(rng.choice(['none', 'dirichlet', 'dirichlet', 'uniform-leak']))
     b = 0.0 if bkind == 'none' else float(rng.uniform(0, 0.5))
@@ -139,7 +150,12 @@ def _corr_scene(rng, family):
     if not np.array_equal(np.argmax(init, axis=-2), labels):     # blur must keep the true class the largest
         init = 0.75 * truth + 0.25 * other
     wca = (-1,) if rng.random() < 0.7 else -2
+    if integ:
+        wca = [(-1,), (-3,), (-3, -1), (-3, -2, -1)][int(rng.integers(4))]
     opts = {'weight_constant_axis': list(wca) if isinstance(wca, tuple) else wca, 'saliency': None}
+    if integ:
+        opts['covariance_norm'] = 'eigenvalue' if rng.random() < 0.7 else ['trace', False][int(rng.integers(2))]
+        opts['affiliation_eps'] = 0.0
     if family == 'cacgmm':
         opts['covariance_norm'] = 'eigenvalue' if rng.random() < 0.7 else ['trace', False][int(rng.integers(2))]
         opts['affiliation_eps'] = 0.0          # the Em model has no posterior clipping (public predict() has none either)
@@ -149,7 +165,8 @@ def _corr_scene(rng, family):
         # at max_concentration (guard); the first step from a blurred start is where guard-free cWMM cases exist
         i = 1
     return dict(family=family, F=F, K=K, D=D, N=N, wca=wca, y=y, init=init, opts=opts, i=i, saliency='none',
-                labels=labels, level=level, maxcos=maxcos, blur=bkind, gains=gain_kind)
+                labels=labels, level=level, maxcos=maxcos, blur=bkind, gains=gain_kind,
+                **({'e': e, 'E': e.shape[-1]} if integ else {}))
 
 
 def _argmax_compare(ctx, c, m, post_model, guard):
@@ -157,7 +174,7 @@ def _argmax_compare(ctx, c, m, post_model, guard):
     (largest minus second largest posterior of the code) is below 1e-9 is counted as a tie within rounding"""
     family, F, K, N = c['family'], c['F'], c['K'], c['N']
     fam = eu.FAMILIES[family]
-    post_code = c02._flat_kn(fam.predict(m, {'y': c['y']}), F, K, N)
+    post_code = c02._flat_kn(fam.predict(m, {'y': c['y'], 'e': c.get('e')}), F, K, N)
     post_model = np.asarray(post_model).reshape(K, F * N)
     a_code = np.argmax(post_code, axis=0)
     a_model = np.argmax(post_model, axis=0)
@@ -189,7 +206,7 @@ def _compare_guarded(ctx, c, m_next, g, post_code, guard):
     tag = f'{family} K={K} D={D} N={N} level={c["level"]:.2e} i={c["i"]} guard={guard}'
     ok, d = c02._close(g[1].reshape(post_code.shape), post_code, scale=1.0)
     ctx.corr(f'eStep-guarded[{family}]', ok, f'{tag}: {d}', data)
-    ok, d = c02._close(g[2].reshape(K, F * N), c02._flat_kn(m_next.weight, F, K, N), scale=1.0)
+    ok, d = c02._close(g[2].reshape(K, F * N), c02._flat_kn(eu.FAMILIES[family].weight(m_next), F, K, N), scale=1.0)
     ctx.corr(f'mWeight-guarded[{family}]', ok, f'{tag}: {d}', data)
     if family == 'cwmm':
         cov = g[3].view(np.complex128).reshape(K, D, D)
@@ -213,8 +230,8 @@ def corr(ctx):
         c = _corr_scene(rng, family)
         fam = eu.FAMILIES[family]
         try:
-            m = fam.fit({'y': c['y']}, c['init'], c['i'], c['opts'])
-            m_next = fam.fit({'y': c['y']}, c['init'], c['i'] + 1, c['opts'])
+            m = fam.fit({'y': c['y'], 'e': c.get('e')}, c['init'], c['i'], c['opts'])
+            m_next = fam.fit({'y': c['y'], 'e': c.get('e')}, c['init'], c['i'] + 1, c['opts'])
         except ValueError as ex:
             if eu.is_singular_covariance_rejection(ex):
                 ctx.count(f'corr-skip-singular-covariance:{family}')
@@ -287,7 +304,7 @@ def heavy_blur_fixed_point(family, y, e, init, labels, proto_y, proto_e, iterati
     """the same statement for start values blurred by MORE than one half (true class still the largest, e.g. 0.36 vs 0.21
     for K = 4): inside the literal quantifier, but EM itself leaves the true partition there on the unchanged code
     (recorded known finding, replayed from corpus/); the search judges blur weights <= 0.5"""
-    return _fixed_point(family, y, e, init, labels, proto_y, proto_e, iterations)
+    return _fixed_point(family, y, e, init, labels, proto_y, proto_e, iterations, premise=False)
 
 
 @oracle
@@ -296,7 +313,66 @@ def noise_free_fixed_point(family, y, e, init, labels, proto_y, proto_e, iterati
     return _fixed_point(family, y, e, init, labels, proto_y, proto_e, iterations)
 
 
-def _fixed_point(family, y, e, init, labels, proto_y, proto_e, iterations):
+_REF_OPTS = {   # the library's default options, as the independent EM oracle of C08 (harness/trainers_util) takes them
+    'cacgmm': ({'hermitize': True, 'covariance_norm': 'eigenvalue', 'eigenvalue_floor': 1e-10}, 1e-10),
+    'cwmm': ({'max_concentration': 500, 'spline_markers': 1000}, 0.0),
+    'cbmm': ({'max_concentration': np.inf}, 0.0),
+    'vmfmm': ({'min_concentration': 1e-10, 'max_concentration': 500}, 0.0),
+}
+
+
+def _reference_em_agrees(family, y, init, iterations, post):
+    """directional families: does the independent EM written from the formulas (C08's oracle: own M-steps, own
+    log-densities, own posterior) rank every observation the way the code does?  Then a departure from the true partition
+    is EM's own behaviour on this input (small classes of size ~D+2 under blur), not the implementation's."""
+    if family not in _REF_OPTS or np.ndim(y) != 2:
+        return False
+    from .. import trainers_util as tu
+    opt, eps = _REF_OPTS[family]
+    try:
+        fam = tu.family_of(family, opt, y.shape[-1])
+        w, params, _ = tu.em_oracle(fam, y[None], np.asarray(init)[None], None, (-1,), int(iterations), eps, None)
+        z = fam.prepare(y)
+        lp = np.stack([fam.logpdf(z, params[0][k])[0] for k in range(len(params[0]))])
+        wb = np.full((lp.shape[0], 1), 1.0 / lp.shape[0]) if isinstance(w, str) else np.asarray(w)[0]
+        ref = tu.posterior(wb, lp, 0.0)
+    except Exception:  # noqa
+        return False
+    return bool(np.all(np.isfinite(ref)) and np.array_equal(np.argmax(ref, axis=0), np.argmax(post, axis=0))
+                and np.max(np.abs(ref - post)) <= 1e-3)
+
+
+def _start_mass_dominant(init, labels):
+    """the premise of the M-step theorems (PbBss.C03.watson_mstep_mass_dominant, top_eigenvector_scene): in the start value
+    every class k draws more mass from its own observations than from those of any other class j,
+    sum_{n in k} g0[k, n] > sum_{n in j} g0[k, n].  A per-observation blur that keeps the true class the largest does NOT
+    imply it for unequal class sizes (0.56/0.44 with sizes 20/12 gives 6.7 < 8.8): the first M-step then points the smaller
+    class at the larger class's prototype whatever the implementation, and observations are mis-ranked until EM recovers."""
+    g = np.asarray(init, dtype=np.float64)
+    lab = np.asarray(labels)
+    if g.ndim == 2:
+        g, lab = g[None], lab[None]
+    K = g.shape[-2]
+    for f in range(g.shape[0]):
+        M = np.stack([g[f][:, lab[f] == j].sum(axis=1) for j in range(K)], axis=1)      # M[k, j]
+        own = np.diag(M)
+        off = M - np.diag(np.full(K, np.inf))
+        if not np.all(own > off.max(axis=1)):
+            return False
+    return True
+
+
+def _fixed_point(family, y, e, init, labels, proto_y, proto_e, iterations, premise=True):
+    res = _fixed_point_raw(family, y, e, init, labels, proto_y, proto_e, iterations, literal=not premise)
+    if premise and isinstance(res, Fail) and not res.tag.startswith(('fit-predict-ranks-differently', 'rejects-regular-covariance',
+                                                         'posterior-not-finite')) \
+            and not _start_mass_dominant(init, labels):
+        return Skip('start value not mass dominant (unequal class sizes under blur): outside the premise of the M-step '
+                    'theorems, EM itself leaves the partition in its first steps')
+    return res
+
+
+def _fixed_point_raw(family, y, e, init, labels, proto_y, proto_e, iterations, literal=False):
     fam = eu.FAMILIES[family]
     data = {'y': y, 'e': e}
     try:
@@ -304,7 +380,9 @@ def _fixed_point(family, y, e, init, labels, proto_y, proto_e, iterations):
         post = fam.predict(model, data)
     except ValueError as ex:
         if eu.is_singular_covariance_rejection(ex):
-            if family.startswith('gmm-') and np.ndim(y) == 2:
+            noise_free = proto_e is not None and np.ndim(y) == 2 and bool(np.all(y == np.asarray(proto_e)[labels]))
+            if family.startswith('gmm-') and np.ndim(y) == 2 and not noise_free:
+                # (exactly noise-free classes have variance 0 as soon as the posteriors are one-hot: a legitimate rejection)
                 # an explicit rejection is acceptable only for a covariance that IS numerically singular: the textbook EM
                 # (centred scatter) must run into an ill-conditioned class covariance too
                 cond = []
@@ -346,6 +424,9 @@ def _fixed_point(family, y, e, init, labels, proto_y, proto_e, iterations):
         if gaussian and _reference_agrees(family, y, init, iterations, post, labels):
             return Skip('textbook EM itself leaves the true partition on this input (Gaussian family, reference EM agrees)')
         idx = tuple(bad[0])
+        if not literal and _reference_em_agrees(family, y, init, iterations, post):
+            return Skip('textbook EM itself leaves the true partition on this input (directional family, independent EM '
+                        'oracle agrees observation by observation)')
         if family == 'cbmm':
             conc = float(np.max(np.abs(model.complex_bingham.covariance_eigenvalues)))
             if conc > CBMM_ILL_CONDITIONED:
